@@ -16,4 +16,5 @@ class Check(PropertyCheck):
         return [("formulas.lp_share", fam_swap.share_cases(rng, tier)),
                 ("world.provide_matrix", fam_world.provide_matrix(rng, tier)),
                 ("world.first_provision", fam_world.first_provision_matrix(rng, tier)),
+                ("world.reseed", fam_world.reseed_histories(rng, tier)),
                 ("world.general", fam_world.general_histories(rng, tier, n_hist={"quick": 5, "thorough": 50}[tier])), ("world.extreme", fam_world.extreme_histories(rng, tier))]
